@@ -7,9 +7,12 @@ documented).  Plus a finite product for index lookups in the tracked builder."""
 
 from __future__ import annotations
 
+import json
+
 import itertools
 
 from mc.drivers import bpm
+from mc.ref.validate import validate
 from mc.drivers import terms as T
 from mc.drivers.scenarios import SCENARIOS
 from mc.engine import e2
@@ -204,6 +207,20 @@ def faults(ctx):
     return out
 
 
+#: fault families the builders refuse *before* touching the graph.  For these (and only these) the check also
+#: demands that building can go on after the refusal.  Other refusals (a wire that cannot be used is only noticed
+#: after the node was added, ...) leave a half-added node behind in the pinned code; nothing in the property
+#: promises atomicity, so nothing is demanded of them beyond being refused, again and again.
+VALIDATE_FIRST = {"declared-outputs-disagree", "callee-not-a-function", "load-not-a-function", "case-built-twice", "case-index-out-of-range",
+                  "case-index-out-of-range+1", "conditional-exit-with-unbuilt-cases", "int-in-untracked-builder", "serialize-incomplete",
+                  "poly-call", "poly-load"}
+
+
+#: families applicable in every state: their usable-after-refusal check is left to the thorough tier (cost)
+EVERYWHERE = {"callee-not-a-function", "load-not-a-function", "int-in-untracked-builder", "serialize-incomplete"}
+_TIER = "quick"
+
+
 def state_oracle(sc, ctx, prog):
     out = []
     ctx.dead_info = _dead_info(sc, prog)
@@ -220,8 +237,33 @@ def state_oracle(sc, ctx, prog):
             mro = {k.__name__ for k in type(e).__mro__}
         if got is None:
             out.append((f"accepted:{fid}", f"inconsistent call '{fid}' returned normally (expected {sorted(expected)}) | state={prog}"))
+            continue
         elif not (mro & expected):
             out.append((f"wrong-error:{fid}:{got}", f"inconsistent call '{fid}' raised {got}, documented error is {sorted(expected)} | state={prog}"))
+        # the state after a refusal is a state like any other: the same inconsistent call is refused again
+        n += 1
+        try:
+            thunk(c2)
+            out.append((f"accepted-second-time:{fid}", f"inconsistent call '{fid}' was refused once and accepted when repeated | state={prog}"))
+            continue
+        except Exception:  # noqa: BLE001
+            pass
+        # refusals that happen before the graph is touched (see VALIDATE_FIRST) leave the builder usable: the
+        # program can still be completed and the completed HUGR is valid
+        fam = fid.split(":")[0]
+        if (fam in VALIDATE_FIRST or fid in VALIDATE_FIRST) and (_TIER == "thorough" or fam not in EVERYWHERE):
+            n += 1
+            try:
+                if not bpm.complete(c2) and bpm.default_completion(c2) is None:
+                    continue
+                bad = validate(json.loads(c2.hugr.to_json()))
+            except bpm.WellFormednessBug:
+                raise
+            except Exception as e:  # noqa: BLE001
+                out.append((f"unusable-after-refusal:{fid}", f"after the refused call '{fid}' the program can no longer be completed: {type(e).__name__}: {str(e)[:120]} | state={prog}"))
+                continue
+            if bad:
+                out.append((f"invalid-after-refusal:{fid}:{bad[0][0]}", f"after the refused call '{fid}' the completed program is not a valid HUGR: {bad[0][1]} | state={prog}"))
     return out, n
 
 
@@ -287,9 +329,12 @@ def check_tracked(case):
 
 
 def run(tier: str, seed: int) -> Result:
+    global _TIER
+    _TIER = tier
     col = Collector()
     r = e2.explore(SCENARIOS, None, PLAN[tier], state_oracle=state_oracle)
     for sig, msg, case in r.fails:
+        case["tier"] = tier
         col.add(sig, msg, case)
     n_tr = 0
     for case in tracked_cases(tier):
@@ -306,9 +351,11 @@ def run(tier: str, seed: int) -> Result:
         "distinct_nontrivial": r.nontrivial or r.states,
         "rule": "from every reachable builder-program prefix of the plan every applicable single fault of the menu (foreign wire from a "
         "cousin/deeper region, case outputs disagreeing, case index out of range / twice / unbuilt on exit, exit-row mismatch, declared "
-        "outputs mismatch, polymorphic call/load without matching instantiation, non-function callee, static port as wire, int index in "
+        "outputs mismatch, polymorphic call/load without matching instantiation, non-function callee, static or order port as wire, int index in "
         "an untracked builder, serializing an incomplete op) is executed on a fresh replay; plus every (width, untracked set, index, "
-        "method) lookup of the tracked builder; oracle = the call raises the documented error",
+        "method) lookup of the tracked builder; oracle = the call raises the documented error, raises again when repeated in the state it "
+        "left behind, and - for the fault families the builders refuse before touching the graph - the program can still be completed "
+        "to a valid HUGR (R2)",
         "samples": r.samples or [{"scenario": "C1", "program": [["cond", 0, []]]}],
         "exhaustive": True,
         "plan": PLAN[tier],
@@ -321,6 +368,8 @@ def run(tier: str, seed: int) -> Result:
 def replay(case) -> list[Violation]:
     if "tracked" in case:
         return [Violation(s, m, case) for s, m in check_tracked(case["tracked"])]
+    global _TIER
+    _TIER = case.get("tier", "thorough")
     sc = SCENARIOS[case["scenario"]]
     ctx = bpm.run(sc, case["program"])
     return [Violation(s, m, case) for s, m in state_oracle(sc, ctx, case["program"])[0]]
